@@ -16,6 +16,7 @@ import builtins
 import contextlib
 import io
 import os
+import shutil
 import tempfile
 
 
@@ -133,6 +134,19 @@ class Sim:
             return None
         return p
 
+    def inside_nofollow(self, path):
+        """Like inside(), but the last component is NOT resolved (rename / unlink act on a symlink itself)."""
+        try:
+            p = os.fspath(path)
+        except TypeError:
+            return None
+        if isinstance(p, bytes):
+            p = os.fsdecode(p)
+        p = os.path.join(os.path.realpath(os.path.dirname(os.path.abspath(p))), os.path.basename(p))
+        if p == self.root or not p.startswith(self.root + os.sep):
+            return None
+        return p
+
     def name(self, p):
         rel = os.path.relpath(p, self.root)
         if rel not in self.names:
@@ -210,7 +224,7 @@ class Sim:
         return raw
 
     def rename(self, a, b):
-        pa, pb = self.inside(a), self.inside(b)
+        pa, pb = self.inside_nofollow(a), self.inside_nofollow(b)
         if pa is None and pb is None:
             return os_replace(a, b)
         if self.dead:
@@ -218,17 +232,17 @@ class Sim:
         if pa is None or pb is None:
             self.unsupported.append(("rename-across-sandbox", str(a), str(b)))
             return os_replace(a, b)
-        if not os.path.exists(pa):
+        if not os.path.lexists(pa):
             raise FileNotFoundError(pa)
         self.prim(("R", self.name(pa), self.name(pb)), lambda: os_replace(pa, pb))
 
     def unlink(self, a):
-        pa = self.inside(a)
+        pa = self.inside_nofollow(a)
         if pa is None:
             return os_unlink(a)
         if self.dead:
             return None
-        if not os.path.exists(pa):
+        if not os.path.lexists(pa):
             raise FileNotFoundError(pa)
         self.prim(("U", self.name(pa)), lambda: os_unlink(pa))
 
@@ -323,6 +337,9 @@ class Sim:
         saved = dict(bopen=builtins.open, ioopen=io.open, replace=os.replace, rename=os.rename,
                      unlink=os.unlink, remove=os.remove, fsync=os.fsync, fdatasync=os.fdatasync,
                      write=os.write, close=os.close, ntf=tempfile.NamedTemporaryFile, mkstemp=tempfile.mkstemp)
+        saved["sendfile"] = getattr(shutil, "_USE_CP_SENDFILE", None)
+        if saved["sendfile"] is not None:
+            shutil._USE_CP_SENDFILE = False        # copyfile must go through read()/write(), not sendfile on raw fds
         builtins.open = io.open = self.shim_open
         os.replace = os.rename = lambda a, b, **kw: self.rename(a, b)
         os.unlink = os.remove = lambda a, **kw: self.unlink(a)
@@ -336,6 +353,8 @@ class Sim:
             os.replace, os.rename, os.unlink, os.remove = saved["replace"], saved["rename"], saved["unlink"], saved["remove"]
             os.fsync, os.fdatasync, os.write, os.close = saved["fsync"], saved["fdatasync"], saved["write"], saved["close"]
             tempfile.NamedTemporaryFile, tempfile.mkstemp = saved["ntf"], saved["mkstemp"]
+            if saved["sendfile"] is not None:
+                shutil._USE_CP_SENDFILE = saved["sendfile"]
 
 
 def run_with_crash(root, action, crash_at=None, view="a", max_pieces=8, names=None):
